@@ -270,7 +270,7 @@ int main(int argc, char **argv)
     for (int i = 0; i < nf; i++) {
       int len; char *doc = univ_read_file(univ_fix(i)->text, &len);
       if (!doc) continue;
-      if (MC.thorough || i % 2 == 0 || !strcmp(univ_fix(i)->name, "io.xml") || !strcmp(univ_fix(i)->name, "annot.xml")) deviations_of(univ_fix(i)->name, doc, (size_t)len, 0);
+      if (MC.thorough || i % 2 == 0 || !strcmp(univ_fix(i)->name, "io.xml") || !strcmp(univ_fix(i)->name, "annot.xml") || !strcmp(univ_fix(i)->name, "misc.xml") /* the one with characters that need escaping */) deviations_of(univ_fix(i)->name, doc, (size_t)len, 0);
       /* its v2-format export as a hwloc-2.x base document */
       if (MC.thorough || i % 4 == 1) {
         hwloc_topology_t t; struct ucfg c; ucfg_keepall(&c);
